@@ -34,7 +34,7 @@ TInit ==
   /\ l = 1 /\ TLCSet(1, 0) /\ TLCSet(3, {}) /\ TLCSet(4, {}) /\ sync = TRUE /\ curdir = << >> /\ run = 0
   /\ scn = EmptyScn /\ stack = << >> /\ verdict = "idle"
   /\ why = [stage |-> "", depth |-> 0]
-  /\ ran = << >> /\ written = {} /\ cwd = {} /\ summary = EmptyLink
+  /\ ran = << >> /\ written = {} /\ cwd = {} /\ summary = EmptyLink /\ warns = {}
 
 IsEvent(e) == l <= Len(Rec) /\ Rec[l].ev = e /\ l' = l + 1
 
@@ -43,7 +43,7 @@ TReset ==
   /\ scn' = ScnT(Rec[l].scn)
   /\ stack' = << NewFrame(1, Rec[l].scn.ckeys, << >>, "") >>
   /\ verdict' = "run" /\ why' = [stage |-> "", depth |-> 0]
-  /\ ran' = << >> /\ written' = {} /\ cwd' = ArtSet(Rec[l].scn.cwd) /\ summary' = EmptyLink
+  /\ ran' = << >> /\ written' = {} /\ cwd' = ArtSet(Rec[l].scn.cwd) /\ summary' = EmptyLink /\ warns' = {}
   /\ sync' = TRUE /\ curdir' = << >> /\ run' = Rec[l].run
 
 \* the layout document a frame working in directory D verifies
@@ -79,6 +79,7 @@ TSilent ==
   /\ sync /\ verdict = "run" /\ l <= Len(Rec)
   /\ \/ EnterSub
      \/ Finish
+     \/ CommandAlign
      \/ (Rec[l].ev = "result" /\ VNext /\ verdict' = "err")
   /\ UNCHANGED <<l, sync, curdir, run>>
 
@@ -125,7 +126,7 @@ TResult ==
   /\ sync => VTerminal /\ verdict = Rec[l].out
   /\ IF sync THEN TLCSet(4, TLCGet(4) \cup {run}) ELSE TLCSet(3, TLCGet(3) \cup {run})
   /\ verdict' = "idle" /\ stack' = << >> /\ sync' = TRUE
-  /\ UNCHANGED <<scn, why, ran, written, cwd, summary, curdir, run>>
+  /\ UNCHANGED <<scn, why, ran, written, cwd, summary, warns, curdir, run>>
 
 SyncMove == TStageSync \/ TSilent \/ TInspectDoneSync \/ TResult \/ TInspectStart
 
